@@ -47,6 +47,10 @@ pub fn run(ctx: &ChildCtx, sh: &mut Shard) {
     for idx in ctx.indices() {
         ctx.begin_case(idx);
         let mut r = ctx.case_rng(idx);
+        if idx % 16 == 5 && !miri {
+            crate::allowlist::probe(&mut r, sh, idx);
+            continue;
+        }
         let v1 = r.chance(1, 2);
         let cfg = if miri { wasmref::gen::Cfg { memless: true, max_iters: 2, fn_budget: 25, max_funcs: 2, ..wasmref::gen::Cfg::small(v1) } } else { pick_cfg(&mut r, v1) };
         let mut expected: Option<bool> = None;
